@@ -7,22 +7,26 @@ import ScionTime.Proofs.ServerScan
 namespace ScionTime.Server
 open ScionTime.Time64
 
-/-- per-item invariant (does not mention `qidx`) -/
-structure ItemOk (icap : Nat) (k : Nat) (buf : List Entry) (qval : T64) : Prop where
+/-- per-item invariant (does not mention `qidx`); `P` is any predicate that every entry
+    written by `handleRequest`/`updateTX` satisfies (used for C06: tx later than rx) -/
+structure ItemOk (P : Entry → Prop) (icap : Nat) (k : Nat) (buf : List Entry) (qval : T64) : Prop where
   len_pos : 1 ≤ buf.length
   len_le : buf.length ≤ icap
   distinct : (buf.map (·.rx)).Nodup
   qval_ge : ∀ e ∈ buf, le64 e.rx qval
   owner : ∀ e ∈ buf, e.owner = k
+  good : ∀ e ∈ buf, P e
 
-def ItemsOk (icap : Nat) (m : Map) : Prop := ∀ k it, m.find k = some it → ItemOk icap k it.buf it.qval
+def ItemsOk (P : Entry → Prop) (icap : Nat) (m : Map) : Prop :=
+  ∀ k it, m.find k = some it → ItemOk P icap k it.buf it.qval
 
-structure Inv0 (cap icap : Nat) (st : State) : Prop where
+structure Inv0 (P : Entry → Prop) (cap icap : Nat) (st : State) : Prop where
   wf : WF st
   size : st.items.length ≤ cap
-  items : ItemsOk icap st.items
+  items : ItemsOk P icap st.items
 
-theorem itemsOk_same {icap : Nat} {m m' : Map} (h : Same m m') (ok : ItemsOk icap m) : ItemsOk icap m' := by
+theorem itemsOk_same {P : Entry → Prop} {icap : Nat} {m m' : Map} (h : Same m m') (ok : ItemsOk P icap m) :
+    ItemsOk P icap m' := by
   intro k it' hf
   obtain ⟨it, h1, h2, h3⟩ := same_find h hf
   rw [← h2, ← h3]; exact ok k it h1
